@@ -4,6 +4,7 @@ import (
 	"bytes"
 	"encoding/json"
 	"fmt"
+	"github.com/glebziz/fs_db/internal/model/sequence"
 	"hash/fnv"
 	"sort"
 
@@ -106,6 +107,9 @@ func (cr *concRun) do(client int, o Op) {
 		for i := 0; i < o.N; i++ {
 			simrt.Yield("client.pause")
 		}
+		return
+	case "seqjump":
+		sequence.VerifAdvance(uint64(o.Size))
 		return
 	}
 	simrt.Yield("op.call")
